@@ -54,7 +54,11 @@ EXPLANATION = (
     "rule does not know is an analysis error, not a verdict), "
     "pytd_utils.Print visits with printer.PrintVisitor (constructed inline or "
     "in a local bound once, unconditionally), and "
-    "generate_pyi prints exactly the verified, canonically ordered AST; R5.6 "
+    "generate_pyi prints exactly the verified, canonically ordered AST (the "
+    "verify / order steps of generate_pyi_ast may sit in functions of io.py "
+    "it calls: such a helper verifies when every one of its exits has passed "
+    "a VerifyVisitor visit, and yields an ordered AST when every exit returns "
+    "a CanonicalOrdering result); R5.6 "
     "two name sets are extracted per method kind K and must be EQUAL: the "
     "names for which the printer omits @staticmethod/@classmethod (negative "
     "name literals `!=` / `not in <foldable collection>` in the path "
@@ -1351,6 +1355,79 @@ def _visit_of(call, visitor_names):
   return None
 
 
+class _PyiPipeline:
+  """Must-flow of two facts through a function of io.py: "verified" (a
+  VerifyVisitor visit has run on every path) and "ordered:<local>" (the local
+  holds the result of pytd_utils.CanonicalOrdering).
+
+  Calls to functions defined at the top level of the same module are looked
+  through (two levels): a helper counts as verifying when "verified" holds at
+  every return/fall-off exit of it, and as returning an ordered AST when every
+  exit is a `return` of a CanonicalOrdering call, of a local that is ordered
+  at that point, or of another such helper."""
+
+  def __init__(self, mod):
+    self.mod, self.memo = mod, {}
+
+  def _local(self, call, within, depth):
+    if isinstance(call, ast.Call) and isinstance(call.func, ast.Name) and depth < 2:
+      fn = self.mod.functions.get(call.func.id)
+      if fn is not None and fn is not within and not fn.decorator_list:
+        return fn
+    return None
+
+  def summary(self, fn, depth):
+    if fn in self.memo:
+      return self.memo[fn]
+    self.memo[fn] = (False, False)
+    f = self.flow(fn, depth)
+    exits = [(k, n, st) for k, n, st in f.exits if k in ("return", "end")]
+    verified = bool(exits) and all(st is not None and "verified" in st
+                                   for _, _, st in exits)
+    ordered = bool(exits) and all(
+        k == "return" and n.value is not None and st is not None and (
+            self.is_ordering(n.value, fn, depth)
+            or (isinstance(n.value, ast.Name) and f"ordered:{n.value.id}" in st))
+        for k, n, st in exits)
+    self.memo[fn] = (verified, ordered)
+    return self.memo[fn]
+
+  def verifies(self, call, within, depth=0):
+    if _visit_of(call, {"VerifyVisitor"}):
+      return True
+    fn = self._local(call, within, depth)
+    return fn is not None and self.summary(fn, depth + 1)[0]
+
+  def is_ordering(self, value, within, depth=0):
+    if isinstance(value, ast.Call) and \
+        dotted(value.func) == "pytd_utils.CanonicalOrdering":
+      return True
+    fn = self._local(value, within, depth)
+    return fn is not None and self.summary(fn, depth + 1)[1]
+
+  def flow(self, fn, depth=0):
+    def gen(unit):
+      out = []
+      for n in flow.unconditional_calls(unit):
+        if self.verifies(n, fn, depth):
+          out.append("verified")
+      if isinstance(unit, ast.Assign) and len(unit.targets) == 1 and \
+          dotted(unit.targets[0]) and self.is_ordering(unit.value, fn, depth):
+        direct = dotted(unit.value.func) == "pytd_utils.CanonicalOrdering"
+        # x = CanonicalOrdering(x): the same AST, now ordered; a helper's
+        # result is ordered whatever it was computed from
+        if not direct or (unit.value.args and
+                          dotted(unit.targets[0]) == dotted(unit.value.args[0])):
+          out.append("ordered:" + dotted(unit.targets[0]))
+      return out
+    def kill(unit):
+      if isinstance(unit, ast.Assign) and not self.is_ordering(unit.value, fn, depth):
+        names = {dotted(t) for t in unit.targets}
+        return lambda fact: fact.startswith("ordered:") and fact.split(":", 1)[1] in names
+      return None
+    return flow.flow(fn, gen, kill, mode="must")
+
+
 @rule("R5.5", "C05", floor=8)
 def r5_5(ctx):
   """Fixpoint witness wiring."""
@@ -1456,36 +1533,28 @@ def r5_5(ctx):
   # io.generate_pyi_ast: verified and canonically ordered before it is stored
   imod = get_module(ctx, IO)
   g = imod.func("generate_pyi_ast")
-  def gen(unit):
-    out = []
-    for n in flow.unconditional_calls(unit):
-      vo = _visit_of(n, {"VerifyVisitor"})
-      if vo:
-        out.append("verified")
-    if isinstance(unit, ast.Assign) and isinstance(unit.value, ast.Call) and \
-        dotted(unit.value.func) == "pytd_utils.CanonicalOrdering" and \
-        len(unit.targets) == 1 and unit.value.args and \
-        dotted(unit.targets[0]) == dotted(unit.value.args[0]):
-      out.append("ordered:" + dotted(unit.targets[0]))
-    return out
-  def kill(unit):
-    if isinstance(unit, ast.Assign) and not (
-        isinstance(unit.value, ast.Call)
-        and dotted(unit.value.func) == "pytd_utils.CanonicalOrdering"):
-      names = {dotted(t) for t in unit.targets}
-      return lambda f: f.startswith("ordered:") and f.split(":", 1)[1] in names
-    return None
-  f = flow.flow(g, gen, kill, mode="must")
+  pipe = _PyiPipeline(imod)
+  f = pipe.flow(g)
   stores = [n for n in ast.walk(g) if isinstance(n, ast.Assign)
             and dotted(n.targets[0]) == "ret.ast"]
   if len(stores) != 1:
     raise AnalysisError("generate_pyi_ast: `ret.ast = ...` store not found")
   st = f.before.get(stores[0]) or frozenset()
-  stored = dotted(stores[0].value)
-  ctx.check("verified" in st, "generate_pyi_ast:verify", IO, stores[0].lineno,
+  value = stores[0].value
+  if isinstance(value, ast.Call):
+    # stored straight from the call that finishes the AST
+    verified = "verified" in st or pipe.verifies(value, g)
+    ordered = pipe.is_ordering(value, g)
+    stored = src(value)[:40]
+  elif dotted(value):
+    stored = dotted(value)
+    verified, ordered = "verified" in st, f"ordered:{stored}" in st
+  else:
+    raise AnalysisError(f"generate_pyi_ast: stored value not understood: {src(value)[:60]}")
+  ctx.check(verified, "generate_pyi_ast:verify", IO, stores[0].lineno,
             "every path to `ret.ast = mod` must run VerifyVisitor on the "
             "inferred AST", {"facts": sorted(st)})
-  ctx.check(f"ordered:{stored}" in st, "generate_pyi_ast:canonical-order", IO,
+  ctx.check(ordered, "generate_pyi_ast:canonical-order", IO,
             stores[0].lineno,
             f"`{stored}` must be the result of pytd_utils.CanonicalOrdering "
             "when it is stored as the analysis result", {"facts": sorted(st)})
@@ -2559,6 +2628,33 @@ _VISITCLASS_TAIL = (
     "      methods = []\n"
     "    lines = decorators + header + slots + classes + constants + methods\n")
 
+_GEN_TAIL = (
+    "    mod = ret.ast\n"
+    "    mod.Visit(visitors.VerifyVisitor())\n"
+    "    mod = optimize.Optimize(\n"
+    "        mod,\n"
+    "        ret.ast_deps,\n"
+    "        lossy=False,\n"
+    "        use_abcs=False,\n"
+    "        max_union=7,\n"
+    "        remove_mutable=False,\n"
+    "    )\n"
+    "    mod = pytd_utils.CanonicalOrdering(mod)\n"
+    "  ret.ast = mod\n")
+_GEN_TAIL_CALL = (
+    "    mod = _finalize_inferred_ast(ret.ast, ret.ast_deps)\n"
+    "  ret.ast = mod\n")
+_GEN_HELPER = (
+    "def _finalize_inferred_ast(mod, ast_deps):\n"
+    "  mod.Visit(visitors.VerifyVisitor())\n"
+    "  mod = optimize.Optimize(\n"
+    "      mod, ast_deps, lossy=False, use_abcs=False, max_union=7,\n"
+    "      remove_mutable=False,\n"
+    "  )\n"
+    "  return pytd_utils.CanonicalOrdering(mod)\n"
+    "\n"
+    "\n")
+
 _VISITFUNCTION = (
     "  def VisitFunction(self, node):\n"
     "    \"\"\"Visit function, producing multi-line string (one for each signature).\"\"\"\n"
@@ -3069,6 +3165,48 @@ VARIANTS = [
      "patch": "benign/C05-r4/with_defect_print_other_visitor.diff", "expect": "fire"},
     {"name": "r4-Print-visitor-local-rebound", "rule": "R5.5",
      "patch": "benign/C05-r4/with_print_visitor_rebound.diff", "expect": "error"},
+    # R5.5: the tail of generate_pyi_ast split out into a module-local helper
+    {"name": "twin-generate_pyi_ast-tail-in-a-helper", "rule": "R5.5", "expect": "silent",
+     "edits": [(IO, _GEN_TAIL, _GEN_TAIL_CALL), (IO, "def generate_pyi_ast(\n", _GEN_HELPER + "def generate_pyi_ast(\n")]},
+    {"name": "twin-generate_pyi_ast-stores-helper-result-directly", "rule": "R5.5", "expect": "silent",
+     "edits": [(IO, _GEN_TAIL, "    finished = _finalize_inferred_ast(ret.ast, ret.ast_deps)\n  ret.ast = finished\n"),
+               (IO, "def generate_pyi_ast(\n", _GEN_HELPER + "def generate_pyi_ast(\n")]},
+    {"name": "twin-generate_pyi_ast-stores-the-helper-call", "rule": "R5.5", "expect": "silent",
+     "edits": [(IO, _GEN_TAIL, "    ret.ast = _finalize_inferred_ast(ret.ast, ret.ast_deps)\n"),
+               (IO, "def generate_pyi_ast(\n", _GEN_HELPER + "def generate_pyi_ast(\n")]},
+    {"name": "generate_pyi_ast-stores-the-call-of-a-helper-that-skips-verify", "rule": "R5.5",
+     "expect": "fire",
+     "edits": [(IO, _GEN_TAIL, "    ret.ast = _finalize_inferred_ast(ret.ast, ret.ast_deps)\n"),
+               (IO, "def generate_pyi_ast(\n",
+                _GEN_HELPER.replace("  mod.Visit(visitors.VerifyVisitor())\n", "") + "def generate_pyi_ast(\n")]},
+    {"name": "generate_pyi_ast-helper-skips-verify", "rule": "R5.5", "expect": "fire",
+     "edits": [(IO, _GEN_TAIL, _GEN_TAIL_CALL),
+               (IO, "def generate_pyi_ast(\n",
+                _GEN_HELPER.replace("  mod.Visit(visitors.VerifyVisitor())\n", "") + "def generate_pyi_ast(\n")]},
+    {"name": "generate_pyi_ast-helper-verifies-on-one-path-only", "rule": "R5.5", "expect": "fire",
+     "edits": [(IO, _GEN_TAIL, _GEN_TAIL_CALL),
+               (IO, "def generate_pyi_ast(\n",
+                _GEN_HELPER.replace("  mod.Visit(visitors.VerifyVisitor())\n",
+                                    "  if ast_deps:\n    mod.Visit(visitors.VerifyVisitor())\n")
+                + "def generate_pyi_ast(\n")]},
+    {"name": "generate_pyi_ast-helper-returns-unordered", "rule": "R5.5", "expect": "fire",
+     "edits": [(IO, _GEN_TAIL, _GEN_TAIL_CALL),
+               (IO, "def generate_pyi_ast(\n",
+                _GEN_HELPER.replace("  return pytd_utils.CanonicalOrdering(mod)\n",
+                                    "  pytd_utils.CanonicalOrdering(mod)\n  return mod\n")
+                + "def generate_pyi_ast(\n")]},
+    {"name": "generate_pyi_ast-helper-orders-then-optimizes", "rule": "R5.5", "expect": "fire",
+     "edits": [(IO, _GEN_TAIL, _GEN_TAIL_CALL),
+               (IO, "def generate_pyi_ast(\n",
+                _GEN_HELPER.replace("  return pytd_utils.CanonicalOrdering(mod)\n",
+                                    "  mod = pytd_utils.CanonicalOrdering(mod)\n"
+                                    "  mod = optimize.Optimize(mod, ast_deps)\n  return mod\n")
+                + "def generate_pyi_ast(\n")]},
+    {"name": "generate_pyi_ast-helper-result-replaced-afterwards", "rule": "R5.5", "expect": "fire",
+     "edits": [(IO, _GEN_TAIL, "    mod = _finalize_inferred_ast(ret.ast, ret.ast_deps)\n    mod = mod.Visit(visitors.ClassTypeToNamedType())\n  ret.ast = mod\n"),
+               (IO, "def generate_pyi_ast(\n", _GEN_HELPER + "def generate_pyi_ast(\n")]},
+    {"name": "twin-benign-C04-r4-generate_pyi_ast-tail-split-out", "rule": "*",
+     "patch": "benign/C04-r4/patch.diff", "expect": "silent"},
     # R5.1/R5.2: printer methods inherited from a module-local mixin
     {"name": "twin-visit-methods-moved-to-a-local-mixin", "rule": "R5.1", "expect": "silent",
      "edits": [
